@@ -214,3 +214,19 @@ MUTANTS["C19"] = [
     ("ebb3-device-match-case-sensitive", [(E3S, "        p_0 = port[0].lower()\n        p_1 = port[1].lower()\n        p_2 = port[2].lower()\n\n        if (needle in p_2) or (needle2 in p_1):", "        p_0 = port[0]\n        p_1 = port[1].lower()\n        p_2 = port[2].lower()\n\n        if (needle in p_2) or (needle2 in p_1):")]),
     ("ebb3-find-first-vidpid-lowercase", [(E3S, "                if port[2].startswith(\"USB VID:PID=04D8:FD92\"):\n                    ebb_port = port[0]  # Success; EBB found by VID/PID match.", "                if port[2].upper().startswith(\"USB VID:PID=04D8:FD92\"):\n                    ebb_port = port[0]  # Success; EBB found by VID/PID match.")]),
 ]
+
+MUTANTS["C15"] = [
+    ("legacy-compares-strings", [(ELS, "        if parse(ebb_version_string) >= parse(version_string):", "        if ebb_version_string >= version_string:")]),
+    ("ebb3-compares-strings", [(E3S, "        if self.version_parsed >= parsed_version_string:", "        if self.version >= version_string:")]),
+    ("min-version-3.0.10", [(E3S, 'MIN_VERSION_STRING = "3.0.2"', 'MIN_VERSION_STRING = "3.0.10"')]),
+    ("connect-true-before-version-check", [(E3S, "        self.parse_version(str_version) # Parse firmware version\n\n        if not self.min_version(self.MIN_VERSION_STRING):", "        self.parse_version(str_version) # Parse firmware version\n\n        if self.min_version(self.MIN_VERSION_STRING) is False and False:")]),
+    ("old-firmware-no-error-recorded", [(E3S, "            self.record_error(error_msg)\n            return False", "            return False")]),
+    ("second-probe-removed", [(E3S, "            if not verified:\n                # Second try at verifying connection, if first has failed:\n                self.port.write('v\\r'.encode('ascii'))    # Request version string.\n                str_version = self.port.readline().decode('ascii').strip()\n                if str_version:\n                    if \"EBB\" in str_version:\n                        verified = True\n", "")]),
+    ("cu-sent-before-version-check", [(E3S, "        self.parse_version(str_version) # Parse firmware version\n", "        self.parse_version(str_version) # Parse firmware version\n        self.port.write( \"CU,10,1\\r\".encode('ascii'))\n        self.port.readline()\n")]),
+    ("servo-gate-is-not-none", [("plotink/ebb_motion.py", "        if not ebb_serial.min_version(port_name, \"2.6.0\"):\n            return      # Unable", "        if ebb_serial.min_version(port_name, \"2.6.0\") is None:\n            return      # Unable")]),
+    ("voltage-gate-2.2.30", [("plotink/ebb_motion.py", 'ebb_serial.min_version(port_name, "2.2.3")', 'ebb_serial.min_version(port_name, "2.2.30")')]),
+    ("nickname-gate-dropped", [(ELS, "        version_status = min_version(port_name, \"2.5.5\")\n\n        if version_status:\n            try:\n                cmd = 'ST,' + nickname + '\\r'", "        version_status = True\n\n        if version_status:\n            try:\n                cmd = 'ST,' + nickname + '\\r'")]),
+    ("verified-on-any-reply", [(E3S, "            if str_version:\n                if \"EBB\" in str_version:\n                    verified = True\n\n            if not verified:", "            if str_version:\n                verified = True\n\n            if not verified:")]),
+    ("not-verified-no-error", [(E3S, "        if not verified:\n            self.record_error(f\"Failed to connect via USB (port name: {self.port_name})\")\n            self.disconnect()", "        if not verified:\n            self.disconnect()")]),
+    ("reboot-gate-le", [(ELS, "        version_status = min_version(port_name, \"2.5.5\")\n        if version_status:\n            try:\n                command(port_name,'RB\\r')", "        version_status = min_version(port_name, \"2.5.50\")\n        if version_status:\n            try:\n                command(port_name,'RB\\r')")]),
+]
